@@ -12,6 +12,7 @@
 //   exchange    grid exchange formats that are both written and read return geometry and values
 #include "common/vh.hpp"
 #include "common/c08_registry.hpp"
+#include "common/c08_fork.hpp"
 
 #include <sys/stat.h>
 #include <set>
@@ -165,17 +166,97 @@ static void roundtrip(Rng& r, Ctx& c, const Entry& e)
   }
 }
 
+// ---- the case runs in a forked child: a crash inside the library (sanitizer report, assertion, exit()) becomes a
+// keyed oracle failure C08:<class>:crash:<kind>:<first /repo function> instead of an anonymous dead worker ----------
+static std::string packCtx(const Ctx& c)
+{
+  std::string o = "S\t" + c.sig + "\n";
+  o += fmt("N\t%ld\t%d\n", c.nfail, (int)c.nontrivial);
+  for (auto& kv : c.stats) o += "O\t" + kv.first + fmt("\t%ld\t%.17g\t%.17g\n", kv.second.n, kv.second.maxErr, kv.second.maxRatio);
+  for (auto& kv : c.skips) o += "K\t" + kv.first + fmt("\t%ld\n", kv.second);
+  for (auto& kv : c.sample) o += "P\t" + kv.first + "\t" + kv.second + "\n";
+  for (auto& kv : *c.harnessProbes) o += "H\t" + kv.first + fmt("\t%ld\n", kv.second);
+  return o + "END\n";
+}
+static bool mergeCtx(Ctx& c, const std::string& payload)
+{
+  std::istringstream is(payload);
+  std::string line;
+  bool complete = false;
+  while (std::getline(is, line))
+  {
+    if (line == "END") { complete = true; break; }
+    std::vector<std::string> f;
+    size_t pos = 0;
+    while (true)
+    {
+      size_t t = line.find('\t', pos);
+      f.push_back(line.substr(pos, t == std::string::npos ? std::string::npos : t - pos));
+      if (t == std::string::npos) break;
+      pos = t + 1;
+    }
+    if (f[0] == "S" && f.size() >= 2) c.sig = f[1];
+    else if (f[0] == "N" && f.size() >= 3) { c.nfail += atol(f[1].c_str()); c.nontrivial = c.nontrivial || atoi(f[2].c_str()); }
+    else if (f[0] == "O" && f.size() >= 5)
+    {
+      OracleStat& st = c.stats[f[1]];
+      st.n += atol(f[2].c_str());
+      st.maxErr   = std::max(st.maxErr, atof(f[3].c_str()));
+      st.maxRatio = std::max(st.maxRatio, atof(f[4].c_str()));
+    }
+    else if (f[0] == "K" && f.size() >= 3) c.skips[f[1]] += atol(f[2].c_str());
+    else if (f[0] == "P" && f.size() >= 3) c.sample[f[1]] = f[2];
+    else if (f[0] == "H" && f.size() >= 3) (*c.harnessProbes)[f[1]] += atol(f[2].c_str());
+  }
+  return complete;
+}
+
 static void run_case(Rng& r, Ctx& c)
 {
   const auto& reg = registry();
   size_t k        = (size_t)(c.icase % (long)reg.size());
-  // developer aids (never set by bin/vcheck): C08_ONLY=<class> runs that class only, C08_AVOID=<a>,<b> skips classes
+  // developer aids (never set by bin/vcheck): C08_ONLY=<class> runs that class only, C08_AVOID=<a>,<b> skips classes,
+  // C08_NOFORK=1 runs the case in the harness process itself (debugger friendly)
   if (const char* only = getenv("C08_ONLY"))
     for (size_t i = 0; i < reg.size(); i++)
       if (reg[i].name == only) k = i;
   if (const char* avoid = getenv("C08_AVOID"))
     if ((std::string(",") + avoid + ",").find("," + reg[k].name + ",") != std::string::npos) throw SkipCase{"dev-avoid"};
-  roundtrip(r, c, reg[k]);
+  const Entry& e = reg[k];
+  if (getenv("C08_NOFORK")) { roundtrip(r, c, e); return; }
+
+  std::map<std::string, long> childProbes;
+  ChildOutcome o = runChild(
+    [&](int wfd) {
+      Ctx cc           = c; // same log FILE*: failed oracle lines are written (and flushed) by the child itself
+      cc.harnessProbes = &childProbes;
+      try { roundtrip(r, cc, e); }
+      catch (const SkipCase& s) { cc.skip("case:" + s.reason); }
+      catch (const std::bad_alloc&) { cc.check("no-exception", "C08:" + e.name + ":exception:bad_alloc", false, 1, 0, "std::bad_alloc escaped"); }
+      catch (const std::exception& ex) { cc.check("no-exception", "C08:" + e.name + ":exception:" + std::string(ex.what()).substr(0, 60), false, 1, 0, ex.what()); }
+      fflush(cc.log);
+      writeAll(wfd, packCtx(cc));
+    },
+    60., 120., "child.err");
+  bool complete = mergeCtx(c, o.payload);
+  if (c.sig.empty()) c.setSig("class=" + e.name + ":died");
+  if (o.kind == ChildOutcome::OK && complete)
+  {
+    c.truth("no-crash", "C08:" + e.name + ":crash", true);
+    return;
+  }
+  if (o.kind == ChildOutcome::TIMEOUT)
+  {
+    c.truth("no-crash", "C08:" + e.name + ":hang", false, "case exceeded 60 s CPU / 120 s wall in the child");
+    return;
+  }
+  CrashId id = crashIdentity(o, selfExe());
+  c.truth("no-crash", "C08:" + e.name + ":crash:" + id.kind + ":" + id.func, false, id.excerpt);
+  if (c.verbose) fprintf(stderr, "%s\n", o.errText.substr(0, 6000).c_str());
 }
+
+// children die often (that is what is being looked for): reports are left unsymbolized (5 ms instead of ~700 ms per
+// report) and the distinct stacks are symbolized afterwards by c08::crashIdentity
+extern "C" const char* __asan_default_options() { return "symbolize=0"; }
 
 int main(int argc, char** argv) { return run_main(argc, argv, "C08", run_case); }
